@@ -101,12 +101,11 @@ impl PixelDataReader for RleLosslessAdapter {
                     // MSB G channel: 5, 11, 17, ...
                     // LSB G channel: 4, 10, 16, ...
                     let frame_start = i * frame_size;
+                    // (the most significant byte comes first in the segments
+                    // and last in the little endian output)
                     let start = frame_start
-                        + if samples_per_pixel == 3 {
-                            sample_number * bytes_per_sample + byte_offset
-                        } else {
-                            sample_number * bytes_per_sample + samples_per_pixel - byte_offset
-                        };
+                        + sample_number * bytes_per_sample
+                        + (bytes_per_sample - 1 - byte_offset);
 
                     let end = (i + 1) * frame_size;
                     for (decoded_index, dst_index) in (start..end)
@@ -206,11 +205,10 @@ impl PixelDataReader for RleLosslessAdapter {
                 }
 
                 // Interleave pixels as described in the example above.
-                let start = if samples_per_pixel == 3 {
-                    sample_number * bytes_per_sample + byte_offset
-                } else {
-                    sample_number * bytes_per_sample + samples_per_pixel - byte_offset
-                };
+                // (the most significant byte comes first in the segments
+                // and last in the little endian output)
+                let start =
+                    sample_number * bytes_per_sample + (bytes_per_sample - 1 - byte_offset);
 
                 let end = frame_size;
                 for (decoded_index, dst_index) in (start..end)
